@@ -186,6 +186,12 @@ class FormulaMaterializer(metaclass=FormulaMaterializerMeta):
     ) -> Union[ModelMatrix, ModelMatrices]:
         from formulaic import ModelSpec
 
+        # Cached factor evaluations and encodings depend on the specs and on the
+        # rows dropped during *this* call, so never carry them between calls.
+        self.factor_cache = {}
+        self.encoded_cache = {}
+        self.encoder_state_cache = {}
+
         # Prepare ModelSpec(s)
         spec: Union[ModelSpec, ModelSpecs] = ModelSpec.from_spec(
             spec, context=self.layered_context, **spec_overrides
